@@ -37,7 +37,7 @@ RULE_FAULTS = (
     ["pattern-file-" + f for f in FILE_FAULTS]
     + ["yaml-broken", "pattern-missing", "pattern-null", "pattern-scalar", "pattern-int", "pattern-mapping", "config-null", "config-scalar", "config-list",
        "cfg-mnemonics-full-match-str", "cfg-mnemonics-full-match-int", "cfg-operands-full-match-str", "cfg-sections-str", "cfg-sections-list-int", "cfg-valid-addr-range-scalar",
-       "cfg-valid-addr-range-list", "cfg-valid-addr-range-no-max", "cfg-valid-addr-range-nonhex", "cfg-valid-addr-range-unquoted-bounds", "cfg-style-int", "cfg-style-unknown", "macros-not-list-mapping", "macros-not-list-scalar",
+       "cfg-valid-addr-range-list", "cfg-valid-addr-range-no-max", "cfg-valid-addr-range-nonhex", "cfg-valid-addr-range-unquoted-bounds", "cfg-valid-addr-range-falsy", "cfg-style-int", "cfg-style-unknown", "macros-not-list-mapping", "macros-not-list-scalar",
        "empty-$and", "empty-$or", "empty-$and_any_order", "empty-$not", "not-2-args", "not-3-args", "deref-no-main-reg",
        "times-neg-int-inside", "times-neg-int-sibling", "times-neg-min-inside", "times-neg-min-sibling", "times-inverted-inside", "times-inverted-sibling",
        "times-neg-int-group", "times-neg-min-group", "times-inverted-group",
@@ -127,6 +127,11 @@ def inject_rule_fault(fault, doc, pos, garbage):
         doc["config"] = "fast"
     elif fault == "config-list":
         doc["config"] = ["mnemonics-full-match"]
+    elif fault == "cfg-valid-addr-range-falsy":
+        # the same range-dependent base; the entry replaced by a wrongly typed value that happens to be falsy
+        item = jasm_io.dump_yaml({"pattern": pat})
+        raw = "config:\n  valid_addr_range: " + ["[]", "0", "false", "''", "0.0"][pos % 5] + "\n" + item
+        return None, raw, None
     elif fault == "cfg-valid-addr-range-unquoted-bounds":
         # the base rule (see evaluate) has correctly quoted bounds and needs them to be found; here the same rule text with one or both
         # bounds unquoted: YAML reads `min: 0x1000` as the integer 4096 - a wrongly typed entry, loud or read as what was written
@@ -309,7 +314,7 @@ def evaluate(case):
         pattern = case["base"]["pattern"]
         real_text = ""
     base_cfg = None
-    if fault == "cfg-valid-addr-range-unquoted-bounds":
+    if fault in ("cfg-valid-addr-range-unquoted-bounds", "cfg-valid-addr-range-falsy"):
         if binary:
             ev.tags.append("fault-not-applicable-here")
             return ev
